@@ -10,10 +10,14 @@ for id in $IDS; do
   [ -f $d/patch.diff ] || continue
   prop=$(python3 -c "import json;print(json.load(open('$d/meta.json'))['property'])")
   checks=$(python3 -c "
-import json
+import json,os
 m=json.load(open('$d/meta.json'))
-cs=[v.split()[1] for v in m.get('our_checks',[]) if 'rc=1' in v]
-print(' '.join(dict.fromkeys(cs)) or m['property'])")
+vs=m.get('our_checks',[])+m.get('our_checks_after_strengthening',[])
+cs=[v.split()[1] for v in vs if 'rc=1' in v]
+cs=list(dict.fromkeys(cs))
+if os.environ.get('SEEDED_ONE_CHECK') and cs:
+    cs=[m['property']] if m['property'] in cs else cs[:1]
+print(' '.join(cs) or m['property'])")
   git -C /repo apply /verif/$d/patch.diff || { echo "$id: patch does not apply"; continue; }
   for c in $checks; do
     bash scripts/check.sh $c quick > out/seeded_all/$id-$c.log 2>&1; rc=$?
